@@ -181,6 +181,38 @@ def validate_traces(trace_module, traces, timeout=1800, chunk=4000, props=()):
     return results, wall
 
 
+_RE_CYCLE = re.compile(r'<<"LOCKCYCLE", (\d+), <<([\d, ]+)>>>>')
+
+
+def lock_cases(cases, timeout=1200, workers=8):
+    """Interleave recorded lock programs with spec/LockCases.tla.  cases: list of lists of programs (lists of
+    [op, lock]).  Returns ({case index (0-based): [positions, ...]}, states, distinct, wall)."""
+    if not cases:
+        return {}, 0, 0, 0.0
+    tmp = tempfile.mkdtemp(prefix="mxv-locks-")
+    try:
+        cf = os.path.join(tmp, "cases.json")
+        with open(cf, "w") as fh:
+            json.dump(cases, fh)
+        args = ["-metadir", os.path.join(tmp, "meta"), "-noGenerateSpecTE", "-config",
+                os.path.join(SPEC_DIR, "cfg", "LockCases.cfg"), "-workers", str(workers), "LockCases.tla"]
+        rc, out, wall = _run(args, env={"CASES_FILE": cf}, timeout=timeout)
+        if "Model checking completed. No error has been found." not in out:
+            raise TlcError("LockCases failed to run:\n%s" % out[-4000:])
+        cycles = {}
+        for m in _RE_CYCLE.finditer(out):
+            pos = [int(x) for x in m.group(2).split(",")]
+            cycles.setdefault(int(m.group(1)) - 1, [])
+            if pos not in cycles[int(m.group(1)) - 1]:
+                cycles[int(m.group(1)) - 1].append(pos)
+        st = None
+        for st in _RE_STATES.finditer(out):
+            pass
+        return cycles, (int(st.group(1)) if st else 0), (int(st.group(2)) if st else 0), wall
+    finally:
+        shutil.rmtree(tmp, ignore_errors=True)
+
+
 def simulate_behaviours(module, cfg, num, depth, seed, timeout=600):
     """tlc -simulate file=...: returns a list of behaviours, each a list of (action, {var: text})."""
     tmp = tempfile.mkdtemp(prefix="mxv-sim-")
